@@ -107,11 +107,18 @@ fn g_arp(rng: &mut Prng) -> Vec<u8> {
     trailing(rng, b)
 }
 fn g_ipv4(rng: &mut Prng) -> Vec<u8> {
-    let b = gen::gen_ipv4(rng, gen::Lie::Any).bytes;
+    let mut b = gen::gen_ipv4(rng, gen::Lie::Any).bytes;
+    // any version / IHL octet (the `*_without_version` doors take it as a parameter)
+    if rng.chance(1, 12) && !b.is_empty() {
+        b[0] = rng.u8();
+    }
     trailing(rng, b)
 }
 fn g_ipv6(rng: &mut Prng) -> Vec<u8> {
-    let b = gen::gen_ipv6(rng, gen::Lie::Any).bytes;
+    let mut b = gen::gen_ipv6(rng, gen::Lie::Any).bytes;
+    if rng.chance(1, 12) && !b.is_empty() {
+        b[0] = rng.u8();
+    }
     trailing(rng, b)
 }
 fn g_auth(rng: &mut Prng) -> Vec<u8> {
@@ -327,11 +334,14 @@ fn r_ipv4_wo_version(r: &mut dyn ReadSeek, all: &[u8]) -> Result<Dec, NErr> {
     let mut first = [0u8; 1];
     r.read_exact(&mut first).map_err(|e| io_err(&e))?;
     let _ = all;
-    // the version nibble is not validated by this entry point: mirror from_slice's verdict
-    if first[0] >> 4 != 4 {
+    // the version nibble is not validated by this entry point: it is called with whatever the
+    // first byte is (it must cope: C01/C02), the verdict mirrors from_slice's for the comparison
+    let res = Ipv4Header::read_without_version(&mut r, first[0]);
+    // (an I/O fault of the source surfaces as such whatever the version says)
+    if first[0] >> 4 != 4 && !matches!(res, Err(err::ipv4::HeaderReadError::Io(_))) {
         return Err(NErr::Content(format!("ip.BadVersion({})", first[0] >> 4)));
     }
-    let h = Ipv4Header::read_without_version(&mut r, first[0]).map_err(|e| ipv4_read_err(&e))?;
+    let h = res.map_err(|e| ipv4_read_err(&e))?;
     Ok(Dec {
         value: dbg(&h),
         consumed: 0,
@@ -360,10 +370,11 @@ fn r_ipv6_wo_version(r: &mut dyn ReadSeek, _: &[u8]) -> Result<Dec, NErr> {
     let mut r = r;
     let mut first = [0u8; 1];
     r.read_exact(&mut first).map_err(|e| io_err(&e))?;
-    if first[0] >> 4 != 6 {
+    let res = Ipv6Header::read_without_version(&mut r, first[0] & 0x0f);
+    if first[0] >> 4 != 6 && res.is_ok() {
         return Err(NErr::Content(format!("ip.BadVersion({})", first[0] >> 4)));
     }
-    let h = Ipv6Header::read_without_version(&mut r, first[0] & 0x0f).map_err(|e| io_err(&e))?;
+    let h = res.map_err(|e| io_err(&e))?;
     Ok(Dec {
         value: dbg(&h),
         consumed: 0,
